@@ -96,7 +96,7 @@ CHECKS = {
               "generated ruleset is enumerated."),
         design='4/C17'),
     'C20': dict(
-        technique="Hypothesis property-based testing: real edit_rules.edit_rules() on generated rulesets x generated option sets, independent filter oracle (own tokenizer and label arithmetic), SHA-256 tree comparison, guess lengths from the real guesser on the edited ruleset; edit_rules.py as a subprocess under generated invocation contexts (non-ASCII names, ascii-only or unwritable stdout: nothing half-written); base lists in and out of probability order",
+        technique="Hypothesis property-based testing: real edit_rules.edit_rules() on generated rulesets x generated option sets, independent filter oracle (own tokenizer and label arithmetic), SHA-256 tree comparison, guess lengths from the real guesser on the edited ruleset; edit_rules.py as a subprocess under generated invocation contexts (non-ASCII names, ascii-only or unwritable stdout: nothing half-written); base lists in and out of probability order; scale part: lists of 10 000 / 32 768 lines of exactly 32 bytes",
         text=("Generated rulesets and option combinations (length bounds, terminal sets, regexes, --copy): the edited base list must be "
               "a sub-sequence of the original lines with identical text, every structure the independent oracle says passes must "
               "stay and every one that fails must go, no other file (and with --copy nothing in the source) may change, and every "
